@@ -2056,4 +2056,60 @@ theorem prog_checks {env : Env} (hw : WFacts env) :
       rw [build_ctorOk false _ hle _ h2]
       exact rel_obsSat (eval_rel hw _ t (build_ctorOk false _ hle _ h2))
 
+/-! ### copies of a spec: when the markers survive, the copy is the spec -/
+
+theorem copyDflt_kept (m : String) (d : Option Arg) : copyDflt true m d = d := by
+  cases d <;> rfl
+
+theorem copyKind_kept (k : KeyKind) : copyKind true k = k := by
+  cases k <;> simp [copyKind, copyDflt_kept]
+
+mutual
+theorem deepCopy_kept : ∀ s : Spec, deepCopy true true s = s
+  | .t _ | .val _ | .mtype | .msub _ | .mexpr .. | .regex .. | .ty _ | .lit _ | .pred .. => by
+    simp [deepCopy]
+  | .and cs d => by simp [deepCopy, deepCopyL_kept cs, copyDflt_kept]
+  | .or cs d => by simp [deepCopy, deepCopyL_kept cs, copyDflt_kept]
+  | .not c => by simp [deepCopy, deepCopy_kept c]
+  | .switch cases d => by simp [deepCopy, deepCopyC_kept cases, copyDflt_kept]
+  | .check a => by simp [deepCopy, copyDflt_kept]
+  | .matchS c d => by simp [deepCopy, deepCopy_kept c, copyDflt_kept]
+  | .list cs => by simp [deepCopy, deepCopyL_kept cs]
+  | .set cs => by simp [deepCopy, deepCopyL_kept cs]
+  | .fset cs => by simp [deepCopy, deepCopyL_kept cs]
+  | .tuple cs => by simp [deepCopy, deepCopyL_kept cs]
+  | .dict es => by simp [deepCopy, deepCopyD_kept es]
+theorem deepCopyL_kept : ∀ l : List Spec, deepCopyL true true l = l
+  | [] => by simp [deepCopyL]
+  | s :: ss => by simp [deepCopyL, deepCopy_kept s, deepCopyL_kept ss]
+theorem deepCopyC_kept : ∀ l : List (Spec × Spec), deepCopyC true true l = l
+  | [] => by simp [deepCopyC]
+  | (k, v) :: r => by simp [deepCopyC, deepCopy_kept k, deepCopy_kept v, deepCopyC_kept r]
+theorem deepCopyD_kept : ∀ l : List (KeyKind × Spec × Spec), deepCopyD true true l = l
+  | [] => by simp [deepCopyD]
+  | (kind, k, v) :: r => by
+    simp [deepCopyD, copyKind_kept, deepCopy_kept k, deepCopy_kept v, deepCopyD_kept r]
+end
+
+theorem markersOK_kept {ids : List (String × String × Bool)} (h : markersOK ids = true) {how : String}
+    (hh : how ∈ ["copy", "deepcopy", "pickle"]) :
+    markerKept ids "_MISSING" how = true ∧ markerKept ids "RAISE" how = true := by
+  unfold markersOK at h
+  simp only [Bool.and_eq_true, List.all_eq_true] at h
+  exact h.1 how hh
+
+/-- with the markers kept, a copy of a spec *is* the spec (as a value): rebuilt node by node
+    from equal attribute values, every "absent" slot still absent -/
+theorem copySpec_id {ids : List (String × String × Bool)} (h : markersOK ids = true) {how : String}
+    (hh : how ∈ ["copy", "deepcopy", "pickle"]) (s : Spec) : copySpec ids how s = s := by
+  unfold copySpec
+  split
+  · rfl
+  · obtain ⟨h1, h2⟩ := markersOK_kept h hh
+    rw [h1, h2]; exact deepCopy_kept s
+
+/-! ### another class table: the code facts are the same -/
+
+theorem WF_withCls (env : Env) (ct : ClassTable) : WF (env.withCls ct) = WF env := rfl
+
 end Glom.C10
